@@ -43,6 +43,7 @@ func registerModels(e *Engine) {
 	registerFSModels(e)
 	registerRegexpModels(e)
 	registerCoModels(e)
+	registerBytesModels(e)
 }
 
 // ---------------------------------------------------------------- harness primitives
